@@ -38,6 +38,24 @@ class Obj:
     def __repr__(self):
         return f'<{object.__getattribute__(self, "_name")}>'
 
+    # objects that model bs4 tags carry an __eq_key__ (their markup): like bs4, they hash and compare by it, so that a
+    # dict or set keyed by tags behaves as it would at run time; everything else compares by identity
+    def __hash__(self):
+        k = object.__getattribute__(self, '_fields').get('__eq_key__')
+        return hash(k) if k is not None else id(self)
+
+    def __eq__(self, other):
+        if self is other:
+            return True
+        if isinstance(other, Obj):
+            k = object.__getattribute__(self, '_fields').get('__eq_key__')
+            return k is not None and k == object.__getattribute__(other, '_fields').get('__eq_key__')
+        return NotImplemented
+
+    def __ne__(self, other):
+        r = self.__eq__(other)
+        return r if r is NotImplemented else not r
+
     def __bool__(self):
         f = object.__getattribute__(self, '_fields')
         return bool(f['__bool__']) if '__bool__' in f else True
@@ -124,7 +142,10 @@ class Interp(MiniEval):
             if a[0] == 'symbol':
                 return Sym(f'{a[1]}.{a[2]}')
         try:
-            return self.inv.folder.lookup(mod.name, name)
+            v = self.inv.folder.lookup(mod.name, name)
+            if type(v).__name__ == 'ClassRef' and hasattr(v, 'qual'):
+                return PkgClass(v.qual)             # a module-level alias of a package class
+            return v
         except Exception:  # noqa: BLE001
             pass
         node = self.inv.folder.env_nodes[mod.name].get(name)
@@ -375,7 +396,7 @@ class Interp(MiniEval):
         return False
 
     def apply(self, callee, args, kwargs, text=''):
-        if self.depth > self.MAX_DEPTH:
+        if self.depth > self.shared.get('max_depth', self.MAX_DEPTH):
             raise Unsupported('call depth exceeded')
         if isinstance(callee, PkgFunc):
             key = f'{callee.mod.name}.{callee.cls + "." if callee.cls else ""}{callee.fn.name}'
@@ -618,4 +639,8 @@ def call_function(ctx, qual: str, args=(), kwargs=None, stubs=None, self_obj=Non
     shared = {'steps': 0}
     shared.update(options or {})
     it = Interp(ctx, mod.name, cls, {}, stubs or {}, shared=shared)
-    return it.run_function(mod, fn, cls, list(args), dict(kwargs or {}), self_obj)
+    try:
+        return it.run_function(mod, fn, cls, list(args), dict(kwargs or {}), self_obj)
+    finally:
+        if isinstance(shared.get('stats'), dict):
+            shared['stats']['steps'] = shared['steps']
